@@ -40,6 +40,7 @@ type Plan struct {
 	Fixed     int
 	EOFStyle  int
 	ZeroReads bool
+	Scribble  bool // the reader uses all of p as scratch space: bytes beyond the returned n are garbage (legal per io.Reader)
 	FailAt    int  // -1: none; else byte offset at which Err is injected
 	FailWith  bool // error delivered together with the bytes before FailAt
 	Err       error
@@ -53,6 +54,7 @@ func DrawPlan(t *core.Tape, n int, faults bool) Plan {
 	p.Fixed = t.Pick(1, 2, 3, 4, 5, 7, 8, 16, 61, 1024)
 	p.EOFStyle = t.Draw(nEOFStyles)
 	p.ZeroReads = t.Chance(1, 4)
+	p.Scribble = t.Chance(1, 4)
 	if faults && t.Chance(1, 3) {
 		// bias the failure point to the ends and to small offsets
 		switch t.Draw(4) {
@@ -86,6 +88,7 @@ type Reader struct {
 	Off   int
 	Yield func(site string) // scheduler seam (may be nil)
 
+	cur         []byte // the buffer of the Read call in progress
 	dev         *core.Tape
 	sticky      error
 	afterSticky int
@@ -116,6 +119,18 @@ func (r *Reader) limit() int { return len(r.Visible()) }
 
 func (r *Reader) fin(n int, err error) (int, error) {
 	r.Reads++
+	if r.P.Scribble && r.cur != nil && n < len(r.cur) {
+		// "Even if Read returns n < len(p), it may use all of p as scratch space during the call."
+		rest := r.cur[n:]
+		if len(rest) > 64 {
+			rest = rest[:64]
+		}
+		for i := range rest {
+			rest[i] = 0xA5 ^ byte(i)
+		}
+		r.Ctx.Count("fault_scratch_space_scribbled")
+	}
+	r.cur = nil
 	e := int64(0)
 	if err == io.EOF {
 		e = 1
@@ -138,6 +153,7 @@ func (r *Reader) endErr() error {
 }
 
 func (r *Reader) Read(p []byte) (int, error) {
+	r.cur = p
 	if r.Yield != nil {
 		r.Yield("Read")
 	}
